@@ -31,10 +31,13 @@ import (
 	"context"
 	"errors"
 	"fmt"
+	"github.com/twmb/franz-go/pkg/kerr"
+	"github.com/twmb/franz-go/pkg/kmsg"
 	"os"
 	"sort"
 	"strconv"
 	"sync"
+	"sync/atomic"
 	"testing"
 	"testing/synctest"
 	"time"
@@ -79,11 +82,19 @@ func genOff(a hx.Args) {
 		if r.Chance(15) {
 			disorder = 1
 		}
-		hx.Emit("off %d %d %s %s %d %d %d %d %d %d", r.U64()%1000000, committed, how, kind, av, bv, epoch, txnmode, delpct, disorder)
+		// one of the consumer's first ListOffsets answers fails once with a retriable code: 1 the end listing (timestamp -1),
+		// 2 the start listing (-2), 3 both, 4 a by-timestamp listing
+		lofault := hx.Pick(r, []int{0, 0, 0, 1, 1, 2, 3, 4})
+		hx.Emit("off %d %d %s %s %d %d %d %d %d %d %d", r.U64()%1000000, committed, how, kind, av, bv, epoch, txnmode, delpct, disorder, lofault)
 	}
 }
 
 func runOff(t *testing.T, tk []string) string {
+	lofault := 0
+	if tk[0] == "off" && len(tk) == 12 {
+		lofault = int(hx.Atoi(tk[11]))
+		tk = tk[:11]
+	}
 	if tk[0] != "off" || len(tk) != 11 {
 		return "bad-op"
 	}
@@ -116,6 +127,41 @@ func runOff(t *testing.T, tk []string) string {
 		return "ERR:cluster:" + err.Error()
 	}
 	defer cluster.Close()
+	var loArmed atomic.Bool // armed right before the consumer under test starts
+	var loMu sync.Mutex
+	loDone := map[int64]bool{}
+	cluster.ControlKey(2, func(kreq kmsg.Request) (kmsg.Response, error, bool) {
+		cluster.KeepControl()
+		req, ok := kreq.(*kmsg.ListOffsetsRequest)
+		if !ok || lofault == 0 || !loArmed.Load() || len(req.Topics) != 1 || len(req.Topics[0].Partitions) != 1 {
+			return nil, nil, false
+		}
+		ts := req.Topics[0].Partitions[0].Timestamp
+		class := ts
+		if ts >= 0 {
+			class = 0
+		}
+		hit := (lofault == 1 && ts == -1) || (lofault == 2 && ts == -2) || (lofault == 3 && (ts == -1 || ts == -2)) || (lofault == 4 && ts >= 0)
+		loMu.Lock()
+		already := loDone[class]
+		if hit && !already {
+			loDone[class] = true
+		}
+		loMu.Unlock()
+		if !hit || already {
+			return nil, nil, false
+		}
+		hx.St.Inc(fmt.Sprintf("fault.listoffsets.%d", class))
+		resp := req.ResponseKind().(*kmsg.ListOffsetsResponse)
+		st := kmsg.NewListOffsetsResponseTopic()
+		st.Topic = req.Topics[0].Topic
+		sp := kmsg.NewListOffsetsResponseTopicPartition()
+		sp.Partition = req.Topics[0].Partitions[0].Partition
+		sp.ErrorCode, sp.Offset, sp.Timestamp, sp.LeaderEpoch = kerr.OffsetNotAvailable.Code, -1, -1, -1
+		st.Partitions = append(st.Partitions, sp)
+		resp.Topics = append(resp.Topics, st)
+		return resp, nil, true
+	})
 	ctx, cancel := context.WithCancel(context.Background())
 	defer cancel()
 	common := []kgo.Opt{kgo.SeedBrokers(cluster.ListenAddrs()...), kgo.Dialer(net.Stack.DialContext),
@@ -269,6 +315,7 @@ func runOff(t *testing.T, tk []string) string {
 		o = o.AtCommitted()
 	}
 	log.Add("O:%s:%d:%d:%d:%d", kind, ox, or, epoch, ot)
+	loArmed.Store(true)
 	hx.St.Inc("off.kind." + kind)
 	hx.St.Inc("off.how." + how)
 	hx.St.Inc(fmt.Sprintf("off.committed.%d", b2i(committed)))
